@@ -145,8 +145,33 @@ def run_family(ck, rng, n, fname, keys):
         for key, why in check_case(c, r):
             if key.split("-")[0] in keys and key not in seen:
                 seen.add(key); bad.append((i, key, why))
+    mism = []
+    if "C03" in keys:
+        # correspondence with the Coq model of the BETDAQ order status machine (Model/Betdaq.v): the events each order went through, in the order the
+        # real handlers processed them, replayed by the model; its status log must be the implementation's
+        import simgen
+        rows, meta = [], []
+        for i, (c, r) in enumerate(zip(cases, res)):
+            if r.get("error") or not r["steps"]:
+                continue
+            per = {}
+            for nm, ev in r["trace"]:
+                per.setdefault(nm, []).append(ev)
+            for o in r["steps"][-1]["orders"]:
+                if o["status"] is None or o["status"] == "Violation":
+                    continue
+                rows.append("(%s, %s)" % (cl(per.get(o["o"], [])), cl(simgen.STAT[x] for x in o["log"])))
+                meta.append((i, o["o"]))
+        hdr = "From V Require Import Model.Num Model.Status Model.Betdaq.\nOpen Scope Z_scope.\n"
+        body = "Definition ok (c : list bevent * list status) : bool := list_eqb status_eqb (bo_log (brun (fst c))) (snd c).\nDefinition cases : list (list bevent * list status) := %s.\nEval vm_compute in bad_idx ok cases.\n"
+        for k, o in enumerate(coq_eval("betdaqlog", hdr, [body % cl(ch) for ch in chunked(rows, 300)])):
+            mism += [k * 300 + x for x in parse_nlist(parse_evals(o)[0])]
+        for k in mism[:2]:
+            i, nm = meta[k]
+            bad.append((i, "C03-betdaq-model", "BETDAQ order %s: the status log %s is not what the model of the handlers gives for the events it went through %s" % (
+                nm, next(o["log"] for o in res[i]["steps"][-1]["orders"] if o["o"] == nm), [e for n_, e in res[i]["trace"] if n_ == nm])))
     from collections import Counter
-    ck.family(fname, len(cases), len(cases), [], sorted({i for i, _, _ in bad}),
+    ck.family(fname, len(cases), len(cases), sorted({meta[k][0] for k in mism}) if mism else [], sorted({i for i, _, _ in bad}),
               dist={"steps": dict(Counter(s[0] for c in cases for s in c["steps"])), "placements_with_the_answer_held_back": sum(1 for c in cases for s in c["steps"] if s[0] == "place" and s[6])})
     for i, key, why in bad[:2]:
         ck.fail(key, why, {"case": cases[i], "how": "harness/impl/betdaqlib.py job script"})
